@@ -23,11 +23,14 @@ ERRNOS = [errno.EACCES, errno.EROFS, errno.ENOSPC, errno.EIO, errno.ENAMETOOLONG
 CAN_FAIL = ('makedirs', 'open', 'write', 'close', 'move', 'remove', 'unlink', 'rmtree', 'realpath', 'stat', 'getsize', 'abspath')
 
 
+RULE += ' Since round 8 one base scenario in seven has a nonexistent argument (the empty string included); persistent EEXIST is not injected (not a fault another name cannot cure).'
+
+
 def base_scenarios(rng, n):
     out = []
     for i in range(n):
         lay = scen.Layout(rng, nested=False)
-        s, m = putlib.gen_put(rng, nargs=rng.randint(1, 2), allow_dots=False, allow_missing=False, allow_mount=False, options=False, layout=lay,
+        s, m = putlib.gen_put(rng, nargs=rng.randint(1, 2), allow_dots=False, allow_missing=i % 7 == 3, allow_mount=False, options=False, layout=lay,
                               allow_bad_utf8=False)
         if rng.random() < 0.3:
             s['steps'][0]['argv'] = ['--home-fallback'] + s['steps'][0]['argv']
@@ -107,6 +110,11 @@ def judge(run, scn, meta, res, plan, section):
         pass
     else:
         allok = all(x == 'trashed' for x in outs if x != 'none')
+        av = scn['steps'][0]['argv']
+        opts = av[:av.index('--')] if '--' in av else [a for a in av if a.startswith('-')]
+        forgiving = any(a.startswith('-') and not a.startswith('--') and 'f' in a for a in opts) or '--force' in opts
+        if any(a.get('expect') == 'missing' for a in meta['args']) and not forgiving:
+            allok = False                 # an argument that does not exist (the empty string included) is a failure unless -f forgives it
         if (o['exit'] == 0) != allok and 'violated' not in outs:
             run.fail('oracle', 'under a fault the exit status does not match what happened', dict(case, outcomes=outs), key='dishonest-exit', section=section)
     run.nontriv((hit, (plan.get('fault') or plan.get('sysfault') or (plan.get('sysfaults') or [[0, 0]])[-1] if not plan.get('faults') else [0, list(plan['faults'].values())[0]['errno']])[1], tuple(outs), o['exit']))
@@ -149,9 +157,11 @@ def run(run, thorough):
                 picks.append(('fault', k, rng.choice(ERRNOS)))
             for k in rng.sample(sysc, min(len(sysc), 6)):
                 picks.append(('sysfault', k, rng.choice(ERRNOS)))
-        # persistent faults on one operation kind (the retry loop must not spin)
+        # persistent faults on one operation kind (the retry loop must not spin).  EEXIST is not among them: "this name is taken" is
+        # answered by trying the next name, and a file system on which every name is taken for ever is neither a single fault nor a
+        # pair of faults (the property's quantifier); EEXIST stays in the single and paired faults above
         for opn in ('open', 'write', 'makedirs', 'move'):
-            for e in ([errno.EACCES, errno.ENOSPC, errno.EROFS, errno.ENAMETOOLONG, errno.EEXIST] if thorough else [rng.choice([errno.EACCES, errno.ENOSPC, errno.EROFS, errno.ENAMETOOLONG])]):
+            for e in ([errno.EACCES, errno.ENOSPC, errno.EROFS, errno.ENAMETOOLONG] if thorough else [rng.choice([errno.EACCES, errno.ENOSPC, errno.EROFS, errno.ENAMETOOLONG])]):
                 picks.append(('faults', opn, e))
         # pairs
         if len(cand) >= 2:
